@@ -165,6 +165,11 @@ func main() {
 						funcrefs[fname(g)] = true
 					}
 				}
+				if _, isGo := ins.(*ssa.Go); isGo {
+					// a goroutine started by the library: its panics escape the recover of the entry point and its
+					// writes are concurrent with the caller's
+					writes["spawn:goroutine"] = true
+				}
 				switch x := ins.(type) {
 				case *ssa.Store:
 					writes[root(x.Addr, 0)] = true
